@@ -45,25 +45,30 @@ def prepare(rep):
         p = common.sh([os.path.join(tools, "genconc"), "-goderive", binp, "-work", work + ".gen", "-harness", common.HARNESS,
                        "-lean", FACTS], timeout=300)
         info["genconc_rc"], info["genconc_err"] = p.returncode, (p.stderr + p.stdout)[-3000:]
+        info["novs"] = p.returncode == 5  # the emitted code cannot be mapped onto vsched: real-runtime search only
         if p.returncode != 0:
             what = {3: "goderive fails on / emits ill-typed code for the fixed package of concurrent combinators",
                     4: "the emitted code contains constructs the skeleton extractor does not cover",
                     5: "the emitted code cannot be mapped onto the virtual scheduler"}.get(p.returncode, "genconc failed")
             rep.violation("T4/T5 preparation: %s: %s" % (what, info["genconc_err"][-600:]),
                           {"correspondence": "T4/T5 genconc", "log": info["genconc_err"]}, False)
-            return None
+            if not info["novs"]:
+                return None
         gen = work + ".gen"
         h = hashlib.sha256()
         for rel in ("concpkg/derived.gen.go", "concpkgb/derived.gen.go", "vs/concpkg/derived.gen.go",
                     "vs/concpkgb/derived.gen.go", "cmd/vsrun/main.go", "cmd/racerun/main.go"):
-            h.update(open(os.path.join(gen, rel), "rb").read())
+            if os.path.exists(os.path.join(gen, rel)):
+                h.update(open(os.path.join(gen, rel), "rb").read())
+        h.update(b"novs" if info["novs"] else b"vs")
         key = h.hexdigest()[:12]
         info["emitted_hash"] = key
         bind = os.path.join(d, "conc-bin-%s-%s" % (tools[-8:], key))
         info["bin"] = bind
         if not os.path.exists(os.path.join(bind, ".done")):
             os.makedirs(bind, exist_ok=True)
-            p = common.sh(["go", "build", "-o", os.path.join(bind, "vsrun"), "./cmd/vsrun"], cwd=gen, timeout=900)
+            p = common.sh(["go", "build", "-o", os.path.join(bind, "vsrun"), "./cmd/vsrun"], cwd=gen, timeout=900) \
+                if not info["novs"] else subprocess.CompletedProcess([], 0, "", "")
             if p.returncode != 0:
                 rep.violation("T5: the rewritten emitted code does not compile against vsched: " + p.stderr[-800:],
                               {"correspondence": "T5 rewrite", "log": p.stderr[-3000:]}, False)
@@ -160,6 +165,9 @@ def sched_part(rep, info, systems, prop, tier=None, search_only=False, timeout=3
     if search_only:
         shutil.rmtree(out, ignore_errors=True)
         return found
+    _pending(rep, summ, "scheduler")
+    rep.cov["unmodelled_executions"] = rep.cov.get("unmodelled_executions", 0) + summ.get("unmodelled_executions", 0)
+    rep.cov["evaluations"] += summ.get("unmodelled_executions", 0)
     # replay on the Lean LTS
     t = time.time()
     with open(os.path.join(out, "ops.txt")) as fin, open(os.path.join(out, "model.txt"), "w") as fout:
@@ -224,6 +232,29 @@ def sched_part(rep, info, systems, prop, tier=None, search_only=False, timeout=3
     return found
 
 
+PENDING_ID = "PENDING-CONC-1"
+PENDING_WHAT = ("[dupchan-order] slice-of-channels Join given the SAME channel at several positions starts one forwarder per position: "
+                "every item of that channel is delivered exactly once and the output is closed once after all inputs are drained, but two of "
+                "its items can arrive in swapped order (per-input order clause); witness in .work/new-defects-conc.md; awaiting the decision "
+                "whether duplicated inputs are within C19 (fix) or a known finding")
+
+
+def _pending(rep, summ, where):
+    n = summ.get("pending_count", 0)
+    if not n:
+        return
+    rep.cov["pending_witness_classes"] = rep.cov.get("pending_witness_classes", {})
+    d = rep.cov["pending_witness_classes"].setdefault("dupchan-order", {"executions": 0, "witnesses": []})
+    d["executions"] += n
+    for w in (summ.get("pending") or [])[:2]:
+        d["witnesses"].append({"where": where, "config": (w.get("replay") or w).get("config"),
+                               "choices": (w.get("replay") or {}).get("choices"), "what": w["what"]})
+    if not any(k.startswith(PENDING_ID) for k in rep.known):
+        w = (summ.get("pending") or [{}])[0]
+        rep.known.append("%s %s (replayed on this run: %d executions, e.g. %s)" % (
+            PENDING_ID, PENDING_WHAT, n, "; ".join(w.get("what", []))[:200]))
+
+
 def race_part(rep, info, systems, prop, tier=None, timeout=1500, maxsec=0):
     """Real runtime: the unrewritten emitted code under the race detector, same scenarios, many
     repetitions with GOMAXPROCS varied; outcome checked against the same observable clauses."""
@@ -258,6 +289,7 @@ def race_part(rep, info, systems, prop, tier=None, timeout=1500, maxsec=0):
             found += 1
             rep.violation("real-runtime execution violating the property (%s): %s" % (v["config"]["sys"], "; ".join(v["what"])[:600]),
                           {"kind": "race", "replay": {"config": v["config"], "choices": []}, "violated": v["what"]}, True)
+        _pending(rep, summ, "real runtime")
         rep.cov["evaluations"] += summ["executions"]
         rep.cov["race_runs"] = {"executions": summ["executions"], "gomaxprocs": summ["gomaxprocs"],
                                 "per_system": summ["systems"], "wall_s": round(time.time() - t, 1),
@@ -303,7 +335,9 @@ def run(rep, prop, systems):
     if prop == "C20":
         found += probe_part(rep, info)
     driver_ok = os.path.exists(common.driver_path())
-    if driver_ok:
+    if info.get("novs"):
+        rep.notes.append("emitted code not mappable onto vsched: scheduler exploration skipped, real-runtime search only")
+    elif driver_ok:
         found += sched_part(rep, info, systems, prop)
     else:
         rep.violation("Lean driver not built; trace validation impossible", {"correspondence": "T5"}, False)
@@ -312,7 +346,8 @@ def run(rep, prop, systems):
     if broken and not found and rep.tier == "quick":
         # something no longer checks and no failing schedule was seen: search harder (thorough pool)
         rep.notes.append("search: thorough scheduler exploration and race stress after a broken proof / fact / correspondence")
-        found += sched_part(rep, info, systems, prop, tier="thorough", search_only=True, timeout=400, maxsec=120)
+        if not info.get("novs"):
+            found += sched_part(rep, info, systems, prop, tier="thorough", search_only=True, timeout=400, maxsec=120)
         if not found:
             found += race_part(rep, info, systems, prop, tier="thorough", timeout=400, maxsec=90)
     return ok_proof
